@@ -7,7 +7,7 @@ and judges: returned value == json.loads(library result) under a type-exact comp
 library error / malformed text -> exactly ValueError; supplied (de)serialisers called exactly
 as specified. A progress record is flushed before every call so that a crash of the
 interpreter is attributable."""
-import hashlib, json, sys, math
+import hashlib, json, signal, sys, math
 
 import jsonlogic_rs
 
@@ -63,14 +63,19 @@ def main():
 
     def call(label, fn, rule, data):
         prog.seek(0)
-        prog.write(json.dumps({"call": label, "rule": rule[:2000], "data": data[:2000]}))
+        prog.write(json.dumps({"call": label, "case": CURRENT[0], "rule": rule[:2000], "data": data[:2000]}))
         prog.truncate()
         prog.flush()
         rep["evaluations"] += 1
+        # bounded termination: the native call holds the GIL, so no Python-level timeout can fire;
+        # an ITIMER_PROF with the default disposition ends the process after 20 s of CPU in one call
+        signal.setitimer(signal.ITIMER_PROF, 20.0)
         try:
             return ("ok", fn())
         except BaseException as e:  # noqa: judged below
             return ("exc", e)
+        finally:
+            signal.setitimer(signal.ITIMER_PROF, 0)
 
     def judge(label, monitor, res, oracle, rule, data, want_value, transform=None):
         """want_value: the decoded expected result (or the sentinel NOVALUE when an error is expected)."""
@@ -104,8 +109,12 @@ def main():
         if not exact_eq(got, want_value):
             V(monitor, "value-differs:%s" % label, rule, data, {"value": repr(want_value)[:400]}, {"value": repr(got)[:400]}, "the returned value is not json.loads(library result) (type-exact comparison)")
 
+    skip_until = int(sys.argv[3]) if len(sys.argv) > 3 else -1
     for c in spec["cases"]:
+        if c["i"] <= skip_until:
+            continue
         rule_t, data_t, oracle = c["rule"], c["data"], c["oracle"]
+        CURRENT[0] = c["i"]
         ret = oracle["ret"]
         want = json.loads(ret["ok"]) if "ok" in ret else NOVALUE
         nontrivial = rule_t.lstrip().startswith("{") or "ok" not in ret
@@ -189,6 +198,7 @@ class NoValue:
 
 
 NOVALUE = NoValue()
+CURRENT = [-1]
 
 
 class Lib:
